@@ -963,6 +963,7 @@ func runRaftsim(args []string) {
 	onlyN := fs.Int("n", 0, "cluster size (0: mix of 1,3,5)")
 	onlyP := fs.String("profile", "", "scheduler profile (default: all in turn)")
 	qa := fs.Int("stageA", 0, "random cases for CommittedIndex / VoteResult")
+	qd := fs.Int("stageD", 0, "random cases for JointConfig.CommittedIndex / VoteResult and confchange.Changer sequences (quorum.go)")
 	one := fs.Int64("one", 0, "run exactly one schedule with this schedule seed (replay; give -n and -profile)")
 	_ = fs.Parse(args)
 	if v := os.Getenv("VERIF_SEED"); v != "" && *seed == 1 {
@@ -1009,5 +1010,8 @@ func runRaftsim(args []string) {
 	}
 	if *qa > 0 {
 		stageA(w, master, *qa)
+	}
+	if *qd > 0 {
+		stageD(w, master, *qd)
 	}
 }
